@@ -54,6 +54,12 @@ def cond_jobs(p):
       Job(p + ".wake_if_any", TU, "h_wake_if_any", enforce=["myth_wake_if_any_from_queue/wake_if_any_fn_contract"],
           replace=["myth_queue_push/push_contract"], replace_calls=WAKE_CALLS,
           fuc=["myth_wake_if_any_from_queue"], timeout=300),
+      Job(p + ".wake_all.deep", TU, "h_wake_all_deep",
+          loops={"myth_wake_all_from_queue": [dict(loop_id="0", assigns="n, g_wa_w_deq, g_wa_w_pushed, g_wa_last_null, TH0.env, TH1.env",
+                 invariants="g_wa_w_deq == g_wa_w_pushed && (g_wa_w_deq == 0 || g_wa_w_deq == 1)", symbol_map="n,myth_wake_all_from_queue::1::n")]},
+          loop_counts={"myth_wake_all_from_queue": 1}, replace_calls=["myth_sleep_queue_deq:verif_deq_all", "myth_queue_push:verif_push_all"],
+          fuc=["myth_wake_all_from_queue", "myth_wake_if_any_from_queue"], timeout=300, degraded_unwind=135,
+          note="wake_all with the real wake_if_any inlined, down to dequeue / publish; if the loop structure changes the bounded search unwinds 135 times (batch sizes up to 128)"),
       Job(p + ".wake_all", TU, "h_wake_all", loops=L_WAKE_ALL, loop_counts={"myth_wake_all_from_queue": 1},
           replace=["myth_wake_if_any_from_queue/wake_if_any_contract"], fuc=["myth_wake_all_from_queue"], timeout=300),
       Job(p + ".cond_wait", TU, "h_cond_wait", replace=["myth_block_on_queue/block_contract", "myth_mutex_lock/mutex_lock_contract"],
